@@ -18,7 +18,7 @@ RULE = (
     "unit of the last digit of the best legal representation of that value in that width (brute-force search over fixed "
     "and exponent notations).  cards: all type mixes over {int,float,str,blank} for 1..5 fields, 4-periodic mixes with "
     "every phase for 6..60 fields x writer {wtcard8,wtcard16,wtcard16d} + comma rendering; files of 1-3 cards in every "
-    "order with comments / unrelated cards between, read per name (reader coroutine).  signature = formatter/decade "
+    "order with comments / unrelated cards between, read per name (reader coroutine); value collisions: EVERY sequence of 1..4 fields over {1, 1.0, 0, 0.0, -3, -3.0, str, blank}.  signature = formatter/decade "
     "class/branch, card length mod 8 / writer"
 )
 ASSUMPTIONS = [
@@ -238,11 +238,15 @@ def fields_match(got, want, writer):
     return None
 
 
-def check_card(types, phase, writer, res):
+COLLIDE = [1, 1.0, 0, 0.0, -3, -3.0, "A", ""]
+
+
+def check_card(types, phase, writer, res, fields=None):
     from pyyeti.nastran import bulk
 
     msgs = []
-    fields = make_fields(types, phase)
+    if fields is None:
+        fields = make_fields(types, phase)
     if not any(f != "" for f in fields):
         return msgs
     want = expected_fields(writer, fields)
@@ -292,6 +296,25 @@ def shard_cards(sh):
             for m in msgs:
                 res.viol(dict(part="card", types=types, phase=phase, writer=writer), m, kind="card-" + writer + "-" + m.split(":")[0][:30])
     res.sample(dict(part="card", types=types, writer="16", text=render("16", "MYCARD", make_fields(types.replace("-", "b"), phase))))
+    return res
+
+
+def shard_collide(sh):
+    """value collisions inside one card: EVERY sequence of 1..4 fields over a menu in which an int, the float of
+    equal value, zero in both types, a string and a blank occur (each field must be written independently of the
+    others: same value, other type earlier in the card)"""
+    res = Result()
+    first = sh["first"]
+    for n in range(1, 5):
+        for rest in itertools.product(range(len(COLLIDE)), repeat=n - 1):
+            idx = (first,) + rest
+            fields = [COLLIDE[i] for i in idx]
+            for writer in ("8", "16", "16d"):
+                msgs = check_card(None, 0, writer, res, fields=fields)
+                res.ev("collide/%s/n%d" % (writer, n))
+                for m in msgs:
+                    res.viol(dict(part="collide", idx=list(idx), writer=writer), m, kind="collide-" + writer + "-" + m.split(":")[0][:30])
+    res.sample(dict(part="collide", idx=list(idx)))
     return res
 
 
@@ -350,12 +373,14 @@ def shards(tier, seed):
     out.append(dict(part="cards", which="short", tier=tier))
     out.append(dict(part="cards", which="long", tier=tier))
     out.append(dict(part="files", tier=tier))
+    for first in range(len(COLLIDE)):
+        out.append(dict(part="collide", first=first))
     r = seed % len(out)
     return out[r:] + out[:r]
 
 
 def run_shard(sh):
-    return {"floats": shard_floats, "cards": shard_cards, "files": shard_files}[sh["part"]](sh)
+    return {"floats": shard_floats, "cards": shard_cards, "files": shard_files, "collide": shard_collide}[sh["part"]](sh)
 
 
 def replay(case):
@@ -364,6 +389,8 @@ def replay(case):
     res = Result()
     if case["part"] == "float":
         return check_float(case["x"], case["fn"], getattr(bulk, case["fn"]), res)[0]
+    if case["part"] == "collide":
+        return check_card(None, 0, case["writer"], res, fields=[COLLIDE[i] for i in case["idx"]])
     if case["part"] == "card":
         return check_card(case["types"].replace("-", "b"), case["phase"], case["writer"], res)
     r = shard_files(dict())
